@@ -138,19 +138,26 @@ class VoiceLeading:
         -------
 
         """
+        from musiclang import Melody
+
+        def compensate(melody, octave):
+            # Absolute notes do not depend on the chord octave: only chord-relative notes are moved back
+            return Melody([n.copy() if n.is_absolute_note else n.o(octave) for n in melody.notes],
+                          nb_bars=melody.nb_bars, tags=set(melody.tags))
+
         def recursive_correct_octave(chord):
             bass_pitch = chord.bass_pitch
             if bass_pitch > 6:
                 new_chord = chord.o(-1)
                 for voice, change in zip(self.fixed_voices, self.change_octave_fixed):
                     if not change:
-                        new_chord.score[voice] = new_chord.score[voice].o(1)
+                        new_chord.score[voice] = compensate(new_chord.score[voice], 1)
                 return recursive_correct_octave(new_chord)
             elif bass_pitch <= -6:
                 new_chord = chord.o(1)
                 for voice, change in zip(self.fixed_voices, self.change_octave_fixed):
                     if not change:
-                        new_chord.score[voice] = new_chord.score[voice].o(-1)
+                        new_chord.score[voice] = compensate(new_chord.score[voice], -1)
                 return recursive_correct_octave(new_chord)
             else:
                 return chord
